@@ -54,7 +54,9 @@ Section Verify.
   }.
 
   (* ---- how c.serverName gets its value before the certificate arrives ---- *)
-  (* hello.serverName = hostnameInSNI(config.ServerName) (handshake_client.go:82 / u_handshake_client.go:204);
+  (* Both entry points do the same thing: Conn.clientHandshake (tls.Client; handshake_client.go) and
+     UConn.clientHandshake (UClient; u_handshake_client.go).
+     hello.serverName = hostnameInSNI(config.ServerName) (handshake_client.go:82 / u_handshake_client.go:204);
      with an ECH config the outer hello's name is overwritten with the public name (handshake_client.go:310,
      u_handshake_client.go:474, for parrots SNIExtension: u_parrots.go:2854 + u_tls_extensions.go:205);
      c.serverName = hello.serverName (handshake_client.go:327 / u_handshake_client.go:491). *)
@@ -201,21 +203,29 @@ Arguments conn_at_verify {pool}.
 Arguments set_skip_time {pool}.
 
 (* ================= a small concrete X.509 =================
-   Used (a) by the correspondence cases: the runner's generated certificates differ only in names, validity
-   window and issuer, which is exactly what these records hold, and every (leaf, name, time) triple the
+   Used (a) by the correspondence cases: the runner's generated certificates (leaves and intermediates) differ only in names, validity
+   window, subject and issuer, which is exactly what these records hold, and every (leaf, name, time) triple the
    runner uses is compared with crypto/x509's own Certificate.Verify (case CX509);
    (b) as the witness that the Section hypotheses of the C14 theorems are satisfiable. *)
-Record tcert := TCert { t_names : list name; t_nb : Z; t_na : Z; t_issuer : N }.
+Record tcert := TCert { t_names : list name; t_nb : Z; t_na : Z; t_issuer : N; t_id : N }.   (* t_id: subject id of a CA certificate, 0 for a leaf *)
 Record troot := TRoot { r_id : N; r_nb : Z; r_na : Z }.
 Definition tpool := list troot.
 
 Definition within (t nb na : Z) : bool := (nb <=? t) && (t <=? na).      (* !now.Before(NotBefore) && !now.After(NotAfter) *)
 Definition toy_verify_hostname (c : tcert) (n : name) : bool := existsb (bytes_eqb n) (t_names c).
+(* the issuer [id] is a root valid at t, or one of the presented intermediates (certs[1:]) valid at t whose own
+   issuer is trusted in the same sense; fuel bounds the path length *)
+Fixpoint toy_trusted (fuel : nat) (roots : tpool) (t : Z) (inter : list tcert) (id : N) : bool :=
+  match fuel with
+  | O => false
+  | S k =>
+    existsb (fun r => (r_id r =? id)%N && within t (r_nb r) (r_na r)) roots ||
+    existsb (fun c => (t_id c =? id)%N && within t (t_nb c) (t_na c) && toy_trusted k roots t inter (t_issuer c)) inter
+  end.
 Definition toy_chain_verify (roots : tpool) (t : Z) (chain : list tcert) : bool :=
   match chain with
   | [] => false
-  | leaf :: _ => within t (t_nb leaf) (t_na leaf) &&
-                 existsb (fun r => (r_id r =? t_issuer leaf)%N && within t (r_nb r) (r_na r)) roots
+  | leaf :: inter => within t (t_nb leaf) (t_na leaf) && toy_trusted 4 roots t inter (t_issuer leaf)
   end.
 Definition toy_x509_verify (roots : tpool) (t : Z) (n : name) (chain : list tcert) : bool :=
   match chain with
